@@ -141,6 +141,7 @@ inline void Epoch::lock(size_t index) noexcept {
   slot.lock_times += 1;
   if (slot.lock_times == 1) {
     auto global_version = _version.load(::std::memory_order_relaxed);
+    BABYLON_VERIF_POINT("epoch:lock_loaded_version");
     slot.version.store(global_version, ::std::memory_order_relaxed);
     ::std::atomic_thread_fence(::std::memory_order_seq_cst);
   }
@@ -179,6 +180,7 @@ inline uint64_t Epoch::low_water_mark() const noexcept {
                      if (min_verison > local_version) {
                        min_verison = local_version;
                      }
+                     BABYLON_VERIF_POINT("epoch:scan_slot");
                    }
                  });
   return min_verison;
